@@ -172,6 +172,75 @@ def triple_unit(job, variant, seed, per_skill):
             out["triples"] += 1
             if len(out["failing"]) >= 2:
                 return out
+    # RESOLVE of every skill when it has nothing pending (never used, idle key-down skills announce NEGATIVE delays on
+    # every elapse) and RESOLVE repeated past the end of a key-down: by the first POSITIVE pending delay of that skill,
+    # else by nothing -- never backwards
+    for s in names:
+        eng = make_engine(job, variant)
+        plan = [op("ELAPSE", time=1000.0), op("RESOLVE", s), op("CAST", s)] + [op("RESOLVE", s)] * 3 + \
+               [op("ELAPSE", time=30000.0), op("RESOLVE", s)]
+        done, buffered = [], []
+        for c in plan:
+            before = eng.get_current_viewer()("clock")
+            log = eng.exec(c)
+            done.append(c)
+            after = eng.get_current_viewer()("clock")
+            if c.command == "RESOLVE":
+                mine = [e for e in buffered if e["name"] == c.name]
+                want = next((e["payload"]["time"] for e in mine if e["tag"] == TAG_DELAY and e["payload"]["time"] > 0), 0.0)
+                out["resolves"] = out.get("resolves", 0) + 1
+                if not close(after - before, want) or after < before:
+                    out["failing"].append({"kind": "clock", "job": job, "variant": variant,
+                                           "what": f"RESOLVE advanced the clock by {after - before}, documented {want}",
+                                           "plan": [command_text(x) for x in done], "command": command_text(c)})
+                    return out
+            if log.playlogs:
+                buffered = list(log.playlogs[-1].events)
+    return out
+
+
+def runtime_unit(job, variant):
+    """clocks do not talk to each other: a SimulationRuntime plays on the store of its builder (an operation engine works
+    on a restored copy), so it is the runtimes that show whether two simulations of one process share a clock.  Every
+    clock is the sum of the elapse times dispatched TO IT."""
+    import copy
+    from simaple.container.simulation import get_skill_components
+    from simaple.simulate.kms import get_builder
+    out = {"runtime_plays": 0, "failing": []}
+    env = simlib.make_env(job, variant)
+    skills = get_skill_components(env)
+
+    def new_runtime():
+        return get_builder(copy.deepcopy(skills), env.character.action_stat.model_copy()).build_simulation_runtime()
+
+    def fail(what, **kw):
+        out["failing"].append({"kind": "clock", "job": job, "variant": variant, "api": "SimulationRuntime", "what": what, **kw})
+
+    a = new_runtime()
+    total = 0.0
+    for t in (1000.0, 0.5, 250.25):
+        a.play({"name": "*", "method": "elapse", "payload": t})
+        total += t
+        out["runtime_plays"] += 1
+        if not close(a.get_viewer()("clock"), total):
+            fail(f"runtime clock {a.get_viewer()('clock')} after elapses summing to {total}")
+            return out
+    b = new_runtime()
+    if b.get_viewer()("clock") != 0:
+        fail(f"a NEW runtime starts at clock {b.get_viewer()('clock')} after another runtime of the process elapsed {total}")
+        return out
+    b.play({"name": "*", "method": "elapse", "payload": 7.0})
+    out["runtime_plays"] += 1
+    if not close(b.get_viewer()("clock"), 7.0) or not close(a.get_viewer()("clock"), total):
+        fail(f"two runtimes: clocks {a.get_viewer()('clock')} / {b.get_viewer()('clock')}, elapsed {total} / 7.0")
+        return out
+    e = make_engine(job, variant)
+    if e.get_current_viewer()("clock") != 0:
+        fail(f"a NEW engine starts at clock {e.get_current_viewer()('clock')} after runtimes of the process elapsed")
+        return out
+    e.exec(op("ELAPSE", time=3.0))
+    if not close(e.get_current_viewer()("clock"), 3.0) or not close(a.get_viewer()("clock"), total):
+        fail(f"engine clock {e.get_current_viewer()('clock')} after ELAPSE 3.0 (runtimes elapsed {total} / 7.0)")
     return out
 
 
@@ -204,17 +273,26 @@ def main(ck: Check):
         acts_expect.extend(out["expect_actions"][:60])
         delays.extend(out["delay_cases"][:20])
 
-    tri = {"triples": 0, "foreign_reject_in_cast_play": 0}
+    tri = {"triples": 0, "foreign_reject_in_cast_play": 0, "resolves": 0}
     for args, out in pmap(triple_unit, [(job, v, ck.seed, 3 if quick else 12) for job in JOBS for v in variants[:2]],
                           ck.budget_s * 0.2):
         if args is None:
             ck.notes.append(f"budget reached (triples): {out}")
             continue
         for k in tri:
-            tri[k] += out[k]
+            tri[k] += out.get(k, 0)
         for f in out["failing"][:2]:
             ck.add_failing(f)
     tot.update(tri)
+    rt_plays = 0
+    for args, out in pmap(runtime_unit, [(job, 0) for job in JOBS], ck.budget_s * 0.15):
+        if args is None:
+            ck.notes.append(f"budget reached (runtimes): {out}")
+            continue
+        rt_plays += out["runtime_plays"]
+        for f in out["failing"][:2]:
+            ck.add_failing(f)
+    tot["runtime_plays"] = rt_plays
 
     reqs = [{"fn": "elapse_of", "actions": acts}] + \
            [{"fn": "first_delay", "events": evs, **({"name": n} if n is not None else {})} for evs, n, _w in delays]
